@@ -27,22 +27,7 @@ Rel == FStr("1e-9")
 SeqNear(a, b, tol) == Len(a) = Len(b) /\ \A j \in 1..Len(a) : Close(a[j], b[j], tol)
 VecTol(v) == FMul(FStr("1e-12"), FAdd(FMaxAbs(v), FStr("1e-300")))
 
-ReadOK(e) ==
-  LET x == e.val[1]  w == e.what
-  IN CASE w = "npts" -> FEq(x, FInt(Npts(vals)))
-       [] w = "time_last" -> Close(x, TimeLast(vals, dt), FMul(FStr("1e-12"), FAdd(T, FStr("1e-300"))))
-       [] w = "values_k" -> FEq(x, vals[e.k + 1])
-       [] w = "pga" -> FEq(x, Pga(vals))
-       [] w = "pgv" -> Close(x, Motion(vals, dt).pv, FMul(Rel, FMul(S, T)))
-       [] w = "pgd" -> Close(x, Motion(vals, dt).pd, FMul(Rel, FMul(S, FSq(T))))
-       [] w = "velocity_last" -> Close(x, Motion(vals, dt).v, FMul(Rel, FMul(S, T)))
-       [] w = "displacement_last" -> Close(x, Motion(vals, dt).d, FMul(Rel, FMul(S, FSq(T))))
-       [] w = "arias_last" -> Close(x, AriasFinal(vals, dt), FMul(Rel, FMul(FSq(S), T)))
-       [] w = "cav_last" -> Close(x, CavFinal(vals, dt), FMul(Rel, FMul(S, T)))
-       [] w = "fas_bins" -> FEq(x, FInt(FasBins(vals)))
-       [] w = "fas" -> e.k < FasBins(vals) /\ CClose(e.val, FasBinOf(vals, dt, e.k), FMul(FMul(Rel, dt), FAdd(FSumAbs(vals), FStr("1e-300"))))
-       [] w = "fas_freq" -> e.k < FasBins(vals) /\ CloseRel(x, FasFreqOf(vals, dt, e.k), FStr("1e-12"), FAbs(x), Zero)
-       [] OTHER -> FALSE
+ReadOK(e) == ReadValueOK(vals, dt, e)
 
 Step ==
   /\ l >= 0 /\ l < N /\ l' = l + 1 /\ tid' = tid
